@@ -48,7 +48,7 @@ def run_shard(spec, acc):
         return real_cases(spec, acc)
     if g == 'diag':
         return diag_cases(acc)
-    X.drive(spec, acc, lambda run, acc: (lambda r, st: outcome_shape(r, st, acc)))
+    X.drive(dict(spec, prop=ID), acc, lambda run, acc: (lambda r, st: outcome_shape(r, st, acc)))
 
 
 # --------------------------------------------------------------- real part
